@@ -175,6 +175,9 @@ def attempts(p, callees=(), configs=(), full=True):
                 A("std:" + std, path)
             A("divide_with_recompute", path, outer_hi=f"({hi}) / 2", outer_stride=2, iters=[it + "o", it + "i"])
             A("divide_with_recompute", path, outer_hi=f"({hi}) / 2 - 1", outer_stride=2, iters=[it + "o", it + "i"])
+            A("divide_with_recompute", path, outer_hi=f"({hi}) / 4", outer_stride=8, iters=[it + "o", it + "i"])
+            A("divide_with_recompute", path, outer_hi=f"({hi}) / 2", outer_stride=4, iters=[it + "o", it + "i"])
+            A("divide_with_recompute", path, outer_hi=f"({hi}) / 4", outer_stride=2, iters=[it + "o", it + "i"])
             # staging of buffers accessed in the loop
             for b, shp in buffers_in_scope(p, path):
                 if shp:
